@@ -1,5 +1,5 @@
 ENGINES = [
-    {'name': 'E1-enum', 'path': 'mc/engine_enum.py', 'serves_properties': ['C01', 'C02', 'C04', 'C05', 'C06', 'C09', 'C12', 'C13', 'C14', 'C19'],
+    {'name': 'E1-enum', 'path': 'mc/engine_enum.py', 'serves_properties': ['C01', 'C02', 'C04', 'C05', 'C06', 'C07', 'C09', 'C12', 'C13', 'C14', 'C19'],
      'kind_free_text': 'sharded exhaustive enumeration of a finite input/configuration space of the real code against a reference model'},
     {'name': 'E2-bfs', 'path': 'mc/engine_bfs.py', 'serves_properties': ['C03', 'C04', 'C05', 'C15', 'C16'],
      'kind_free_text': 'explicit-state breadth-first search over live implementation objects (state = replayable operation history, canonicalised from the complete vars() of the objects), level-parallel'},
@@ -80,3 +80,9 @@ CHECKS['C14'] = dict(
     technique='exhaustive enumeration of messages and containers through str/dict/repr round trips, and of text lines and line streams over a word alphabet against a reference grammar',
     text='Every boundary combination of attribute values of every message type (the full 1.33M space in thorough) x 10 time values goes through from_str(str(m)), from_dict(m.dict()) and eval(repr(m)); meta messages, frozen variants, tracks of length 0..4 and files with 0..2 tracks through eval(repr(x)). Every line of up to 3 words over a 10 x 36 word alphabet is parsed and judged by a reference grammar written from docs/messages/serializing.rst (valid: that message; invalid: exactly ValueError); every stream of up to 3 (4) lines over 16 line kinds must yield (msg, None) / (None, "line n: ...") in order without aborting.',
     note='Numeric literals restricted to plain decimal forms; bool/inf/nan times outside the statement.')
+
+CHECKS['C07'] = dict(
+    engine='E1-enum', category='exploration', design_ref='DESIGN.md 5/C07',
+    technique='exhaustive enumeration of small files through save+load, of unstorable contents, and of every single-byte mutation/truncation/deletion/duplication of reference-encoded base files (fixed-point clause)',
+    text='Every single track of length <= 3 (4 thorough) over 20 event kinds with deltas at every variable-length-quantity boundary, every pair/triple of short tracks, boundary payload lengths, three ticks_per_beat values and all file types are saved and loaded back and compared with the reference normalisation (single trailing end_of_track carrying the remaining delta). Unstorable contents must make save raise ValueError. 4 base files produced by the reference encoder are mutated exhaustively at byte level; every mutant that loads must be a fixed point of load-save-load.',
+    note='Event kinds and track lengths bounded; a mutant that fails to load is outside the clause; negative end_of_track deltas that fold into a storable delta are accepted when the file loads to the normalised content.')
